@@ -151,12 +151,17 @@ func TestCheck(t *testing.T) {
 				}()
 			}
 		}
-		share := time.Until(env.Deadline) / time.Duration(len(cfgs)+1)
+		var share time.Duration
 		var states, trans, validated int64
 		exhaustive := true
 		per := []any{}
 		var samples []any
-		for _, cfg := range cfgs {
+		for ci, cfg := range cfgs {
+			// every instance gets an equal share of what is left (early finishers leave their time to the rest)
+			share = time.Until(env.Deadline) * 8 / 10 / time.Duration(len(cfgs)-ci)
+			if share < 5*time.Second {
+				share = 5 * time.Second
+			}
 			sys := raftkvs.New(cfg.Config)
 			sys.Observe = raftkvs.ObserveHistory
 			r := sys.BFS(ss.BFSOptions{Workers: env.Workers, Deadline: time.Now().Add(share), Constraint: cfg.Constraint, MaxDev: cfg.MaxDev,
@@ -168,8 +173,12 @@ func TestCheck(t *testing.T) {
 			trans += r.Transitions
 			exhaustive = exhaustive && r.Exhaustive
 			nConf := 0
+			confCap, confDeadline := 1000, time.Now().Add(share/5)
+			if env.Thorough() {
+				confCap *= 20
+			}
 			for _, leaf := range r.Leaves {
-				if nConf >= 1000 {
+				if nConf >= confCap || time.Now().After(confDeadline) {
 					break
 				}
 				path := r.PathTo(leaf)
